@@ -84,6 +84,10 @@ impl Collector for WeirdCollector {
 
 fn arbitrary_family(rng: &mut Rng, idx: usize, fpool: &[f64]) -> MF {
     let mut f = gen_family(rng, idx, fpool);
+    if rng.chance(1, 6) {
+        // long non-ASCII help at a random byte offset (error paths that render or truncate the family)
+        f.help = format!("{}{}", "x".repeat(rng.usize_below(8)), "é日".repeat(60 + rng.usize_below(200)));
+    }
     match rng.below(10) {
         0 => f.typ = MType::Untyped,
         1 => f.name = String::new(),
